@@ -148,6 +148,11 @@ def store2(ctx) -> List[Ob]:
 # ------------------------------------------------------------------ carriers
 
 
+def _site_key(call: ast.Call) -> str:
+    """stable key of a re-targeting call: receiver and method, not the argument text"""
+    return A.alpha_key(call.func) + "(...)"
+
+
 def _assign_parts(stmt):
     """([targets], value) for Assign and for AnnAssign with a value, else None"""
     if isinstance(stmt, ast.Assign):
@@ -324,6 +329,11 @@ class Retarget:
 
     def _resolve(self) -> None:
         a = self.arg
+        if isinstance(a, ast.Name):
+            # new_targets = tuple(L); x.replace_jump_targets(new_targets)
+            defs = [d for d in self.cfg.reaching_defs(self.call, a.id)]
+            if len(defs) == 1 and defs[0].stmt is not None and _assign_parts(defs[0].stmt) is not None:
+                a = _assign_parts(defs[0].stmt)[1]
         if isinstance(a, ast.Call) and isinstance(a.func, ast.Name) and a.func.id == "tuple" and len(a.args) == 1 and isinstance(a.args[0], ast.Name):
             self.L = a.args[0].id
             defs = [d for d in self.cfg.reaching_defs(self.call, self.L)]
@@ -433,7 +443,7 @@ def store4(ctx) -> List[Ob]:
     out: List[Ob] = []
     for rt in _retargets(ctx):
         fn, c = rt.fn, rt.call
-        key = A.alpha_key(c)
+        key = _site_key(c)
         where = ctx.where(fn, c)
         if rt.problems:
             # an element-wise comprehension over the block's own tuple is positional too
@@ -501,7 +511,7 @@ def store5(ctx) -> List[Ob]:
         if rt.method != "replace_jump_targets":
             continue
         fn, c, cfg = rt.fn, rt.call, rt.cfg
-        key = A.alpha_key(c)
+        key = _site_key(c)
         where = ctx.where(fn, c)
         admits, why = _admits(ctx, fn, rt.recv, "SyntheticBranch")
         if not admits:
@@ -595,7 +605,7 @@ def store6(ctx) -> List[Ob]:
         for c in calls:
             if id(c) in inner:
                 continue
-            key = A.alpha_key(c)
+            key = _site_key(c)
             where = ctx.where(fn, c)
             admits, why = _admits(ctx, fn, c.func.value, "RegionBlock")
             if not admits:
